@@ -15,7 +15,7 @@ from .fdcalls import CallMixin
 from .fdvalues import (BoundExt, Chooser, ClassVal, CoroVal, EnumVal, ExtVal, FuncVal, GatherVal, Obj, Opaque,
                        PathAbort, PyRaise, StrT, strt_concat)
 from .report import Unsupported
-from .srcmodel import ClassDef, FuncDef, Module, SrcModel, norm, walk_shallow
+from .srcmodel import ClassDef, FuncDef, Module, SrcModel, assigned_expr, norm, walk_shallow
 
 LARK_EXC = {
     "lark.exceptions.LarkError": ["builtins.Exception"],
@@ -93,6 +93,8 @@ class Interp(CallMixin):
         self.call_depth = 0
         self.ext_bases: Dict[str, List[str]] = {}  # ancestry of external classes (supplied by rules)
         self.ctxvars: List[Obj] = []  # contextvars.ContextVar objects created so far
+        self.ctx_cells: List[Tuple[dict, str]] = []  # (container, key) cells a rule declares context-local (set by a ContextVar-backed setter)
+        self.call_observers: Dict[str, Callable] = {}  # qualname -> observer(args, kwargs) invoked when that repo function starts
 
     # ------------------------------------------------------------------ helpers for rules
     def enum(self, cls_qualname: str, name: str) -> EnumVal:
@@ -330,7 +332,7 @@ class Interp(CallMixin):
         elif isinstance(res, tuple) and res[0] == "modvar":
             _, m, n = res
             sts = m.assigns.get(n, [])
-            expr = sts[0].value if len(sts) == 1 else None  # (a `global` rebinding inside a function is interpreted, see exec)
+            expr = assigned_expr(sts[0], n) if len(sts) == 1 else None  # (a `global` rebinding inside a function is interpreted, see exec)
             if expr is None:
                 raise Unsupported(f"module variable {m.name}.{n} is not bound exactly once at module level")
             key = (m.name, n)
@@ -365,6 +367,11 @@ class Interp(CallMixin):
         if dotted_name in ("builtins.str", "builtins.int", "builtins.bool", "builtins.list", "builtins.dict",
                            "builtins.tuple", "builtins.set", "builtins.float", "builtins.object", "builtins.type"):
             return ClassVal(dotted_name)
+        if dotted_name.startswith("re.") and dotted_name.count(".") == 1:
+            import re as _re
+
+            if isinstance(getattr(_re, head, None), _re.RegexFlag):
+                return int(getattr(_re, head))  # re.IGNORECASE ...: plain bit masks
         if head[:1].isupper() and not head.isupper() and not dotted_name.startswith("typing."):
             return ClassVal(dotted_name)  # an external class (maus model classes, ContextVar, ...)
         return ExtVal(dotted_name)
@@ -1069,6 +1076,8 @@ class Interp(CallMixin):
             self.bind_params(lam.args, None, args, kwargs, frame, "<lambda>")
             return self.eval(lam.body, frame)
         fn: FuncDef = fv.fn
+        if fn.qualname in self.call_observers:
+            self.call_observers[fn.qualname](([fv.self_obj] if fv.self_obj is not None else []) + list(args), kwargs)
         frame = Frame(fn, fn.module, fv.env, assigned_names(fn.node) | set(fn.params))
         self.call_depth += 1
         if self.call_depth > 60:
